@@ -182,7 +182,7 @@ def run_case(case, rec):
         rec.count("programs_with_validation_module")
 
     def run_solve(n_it, params, data, pdata, odata, opt_state):
-        return guard.call(jinns.solve, n_iter=n_it, init_params=params, data=data, loss=P["loss"], optimizer=opt,
+        return guard.call_supported(jinns.solve, n_iter=n_it, init_params=params, data=data, loss=P["loss"], optimizer=opt,
                           opt_state=opt_state, tracked_params=tracked, param_data=pdata, obs_data=odata,
                           obs_batch_sharding=shard, **verb, **({"validation": val} if val is not None else {}))
 
